@@ -73,6 +73,23 @@ func c17CheckOne(cs c17Case) (sig, what string) {
 		if r != cs.R&31 || g != cs.G&31 || b != cs.B&31 || uint16(c)&0x8000 != 0 {
 			return "unexplained:pack-unpack", fmt.Sprintf("ToColor15(%d,%d,%d)=$%04x unpacks to (%d,%d,%d)", cs.R, cs.G, cs.B, uint16(c), r, g, b)
 		}
+	case "muldiv-twice":
+		// the identical call made twice in a row (a palette with a run of equal entries)
+		_ = color15.Color(cs.Color).MulDiv(cs.Mul, cs.Div)
+		got := uint16(color15.Color(cs.Color).MulDiv(cs.Mul, cs.Div))
+		if want := c17RefMulDiv(cs.Color, cs.Mul, cs.Div); got != want {
+			return "unexplained:muldiv-repeated-call", fmt.Sprintf("Color($%04x).MulDiv(%d,%d) called twice in a row: the second call gives $%04x, want $%04x", cs.Color, cs.Mul, cs.Div, got, want)
+		}
+	case "unpack-pack-twice":
+		color15.Color(cs.Color).ToRGB()
+		r, g, b := color15.Color(cs.Color).ToRGB()
+		color15.ToColor15(r, g, b)
+		got := uint16(color15.ToColor15(r, g, b))
+		l1 := color15.Color(cs.Color).Luminosity()
+		l2 := color15.Color(cs.Color).Luminosity()
+		if got != cs.Color&0x7FFF || r != uint8(cs.Color&31) || g != uint8(cs.Color>>5&31) || b != uint8(cs.Color>>10&31) || l1 != l2 {
+			return "unexplained:repeated-call", fmt.Sprintf("Color($%04x): ToRGB, ToColor15 and Luminosity each called twice in a row: second results (%d,%d,%d), $%04x, %d (first Luminosity %d)", cs.Color, r, g, b, got, l2, l1)
+		}
 	case "muldiv-after-zero-divisor":
 		// valid call (G,B), failed call (R,0) recovered, then the call under test
 		_ = color15.Color(cs.Color).MulDiv(cs.G, cs.B)
@@ -108,6 +125,54 @@ func replayC17(raw json.RawMessage) (string, error) {
 
 func runC17(r *report.Run) {
 	var evals, nontrivial, saturated int64
+	// the short history facets come first: if one of them reports, the full-domain sweeps are skipped
+	// (a change that makes every call slow must not keep the check from reporting)
+	var twice int64
+	par.For(256, func(_, m int) {
+		for d := 1; d < 256; d++ {
+			for _, c := range []uint16{0x7FFF, 0x1234, 0xDA96} {
+				cs := c17Case{Op: "muldiv-twice", Color: c, Mul: uint8(m), Div: uint8(d)}
+				atomic.AddInt64(&twice, 2)
+				if sig, what := c17CheckOne(cs); sig != "" {
+					r.Violation(sig, what, cs)
+					return
+				}
+			}
+		}
+	})
+	r.Set("calls_repeated_in_first_phase", twice)
+	// a call that panicked (divisor zero) and was recovered by the caller leaves nothing behind: the next
+	// valid call gives the reference result, whatever valid call came before the failed one. Every
+	// (multiplicand, divisor) pair, two colours; before it a valid call with a neighbouring multiplicand or
+	// divisor, then a failed call with this or the other multiplicand.
+	var afterPanic int64
+	par.For(256, func(_, m int) {
+		var ev int64
+		for d := 1; d < 256; d++ {
+			for _, c := range []uint16{0x7FFF, 0xDA96} {
+				for _, prime := range [][2]int{{m ^ 1, d}, {m, d ^ 1}, {m ^ 0x80, d ^ 0x80}} {
+					if prime[1] == 0 {
+						continue
+					}
+					for _, fm := range []int{m, d} {
+						cs := c17Case{Op: "muldiv-after-zero-divisor", Color: c, Mul: uint8(m), Div: uint8(d), R: uint8(fm), G: uint8(prime[0]), B: uint8(prime[1])}
+						ev++
+						if sig, what := c17CheckOne(cs); sig != "" {
+							r.Violation(sig, what, cs)
+							return
+						}
+					}
+				}
+			}
+		}
+		atomic.AddInt64(&afterPanic, ev)
+	})
+	if r.NSignatures() > 0 {
+		r.Incomplete("the history facets (repeated call, call after a recovered failure) reported violations; the full-domain sweeps were not run")
+		r.Set("evaluations", twice+afterPanic)
+		r.Set("exhaustive", false)
+		return
+	}
 	// MulDiv: the whole domain, 2^16 colours x 256 multiplicands x 255 divisors.
 	par.For(1<<16, func(_, ci int) {
 		c := uint16(ci)
@@ -128,7 +193,15 @@ func runC17(r *report.Run) {
 			for m := 0; m < 256; m++ {
 				got := uint16(color15.Color(c).MulDiv(uint8(m), uint8(d)))
 				want := c17RefMulDiv(c, uint8(m), uint8(d))
-				ev++
+				ev += 2
+				if again := uint16(color15.Color(c).MulDiv(uint8(m), uint8(d))); again != want && got == want {
+					cs := c17Case{Op: "muldiv-twice", Color: c, Mul: uint8(m), Div: uint8(d)}
+					sig, what := c17CheckOne(cs)
+					if sig == "" {
+						sig, what = "unexplained:muldiv-repeated-call", fmt.Sprintf("Color($%04x).MulDiv(%d,%d) called twice in a row: $%04x then $%04x", c, m, d, got, again)
+					}
+					report(sig, what, cs)
+				}
 				if want != c&0x7FFF {
 					nt++
 				}
@@ -178,7 +251,7 @@ func runC17(r *report.Run) {
 				prev = got
 			}
 		}
-		for _, op := range []string{"unpack-pack", "luminosity"} {
+		for _, op := range []string{"unpack-pack", "luminosity", "unpack-pack-twice"} {
 			cs := c17Case{Op: op, Color: c}
 			ev++
 			if sig, what := c17CheckOne(cs); sig != "" {
@@ -209,38 +282,12 @@ func runC17(r *report.Run) {
 		}
 		atomic.AddInt64(&evals, ev)
 	})
-	// a call that panicked (divisor zero) and was recovered by the caller leaves nothing behind: the next
-	// valid call gives the reference result, whatever valid call came before the failed one. Every
-	// (multiplicand, divisor) pair, two colours; before it a valid call with a neighbouring multiplicand or
-	// divisor, then a failed call with this or the other multiplicand.
-	var afterPanic int64
-	par.For(256, func(_, m int) {
-		var ev int64
-		for d := 1; d < 256; d++ {
-			for _, c := range []uint16{0x7FFF, 0xDA96} {
-				for _, prime := range [][2]int{{m ^ 1, d}, {m, d ^ 1}, {m ^ 0x80, d ^ 0x80}} {
-					if prime[1] == 0 {
-						continue
-					}
-					for _, fm := range []int{m, d} {
-						cs := c17Case{Op: "muldiv-after-zero-divisor", Color: c, Mul: uint8(m), Div: uint8(d), R: uint8(fm), G: uint8(prime[0]), B: uint8(prime[1])}
-						ev++
-						if sig, what := c17CheckOne(cs); sig != "" {
-							r.Violation(sig, what, cs)
-							return
-						}
-					}
-				}
-			}
-		}
-		atomic.AddInt64(&afterPanic, ev)
-	})
 	evals += afterPanic
 	r.Set("calls_after_recovered_zero_divisor", afterPanic)
 	r.Set("evaluations", evals)
 	r.Set("distinct_nontrivial", nontrivial)
 	r.Set("muldiv_triples_with_saturation", saturated)
-	r.Set("rule", "every (colour, multiplicand, divisor) triple of the whole domain 2^16 x 256 x 255 once for the closed-form comparison and once more for monotonicity in the divisor, all 2^16 colours for unpack/pack and luminosity, all 2^24 (r,g,b) for pack/unpack; every (multiplicand, divisor) again right after a recovered call with divisor zero; a MulDiv triple is non-trivial when the expected result differs from the input colour (all triples are distinct by construction)")
+	r.Set("rule", "every (colour, multiplicand, divisor) triple of the whole domain 2^16 x 256 x 255 twice in a row for the closed-form comparison (the repeated call must give the same result) and once more for monotonicity in the divisor, all 2^16 colours for unpack/pack and luminosity, all 2^24 (r,g,b) for pack/unpack; every (multiplicand, divisor) again right after a recovered call with divisor zero; a MulDiv triple is non-trivial when the expected result differs from the input colour (all triples are distinct by construction)")
 	r.Set("exhaustive", true)
 	r.Sample(c17Case{Op: "muldiv", Color: 0x0002, Mul: 128, Div: 1})
 	r.Sample(c17Case{Op: "muldiv", Color: 0x7FFF, Mul: 255, Div: 254})
